@@ -38,11 +38,13 @@ func irNoUptr(n *sx) *sx {
 
 var irTypeOpts = TypeOpts{NoRaw: true}
 
-// of the named library types only the plain recursive structs Rec and Tree are in the model (no callbacks)
+// of the named library types the recursive structs Rec, Tree and the callback types MV MP TV TP LJ LJP LT are in the model
 func irLibOnly(g *Gen, n *sx) *sx {
 	if n.isL && n.head() == "lib" {
-		if a := n.list[1].atom; a != "Rec" && a != "Tree" {
-			return listT("lib", atomT([]string{"Rec", "Tree"}[g.R.Intn(2)]))
+		switch n.list[1].atom {
+		case "Rec", "Tree", "MV", "MP", "TV", "TP", "LJ", "LJP", "LT":
+		default:
+			return listT("lib", atomT([]string{"Rec", "Tree", "MV", "LJ", "LT", "MP"}[g.R.Intn(6)]))
 		}
 		return n
 	}
@@ -144,6 +146,10 @@ var irEdgeTypes = []string{
 	"(lib Rec)", "(lib Tree)", "(ptr (lib Rec))", "(sl (lib Tree))", "(arr 2 (lib Rec))", "(map str (lib Tree))",
 	"(st (f A - (lib Rec)) (f B - (lib Tree)) (f C - (ptr (lib Rec))))", "(st (f A - (st (f B - (st (f C - (lib Tree)))))))",
 	"(map i8 (map u64 (map int str)))", "(map bool i8)", "(map f64 i8)",
+	"(lib MV)", "(lib TV)", "(lib LJ)", "(lib LT)", "(ptr (lib MV))", "(ptr (lib MP))", "(ptr (lib TP))", "(ptr (lib LJP))", "(ptr (ptr (lib LT)))",
+	"(sl (lib MV))", "(sl (lib MP))", "(arr 2 (lib TV))", "(map str (lib LJ))", "(map str (ptr (lib MP)))",
+	"(st (f A - (lib MV)) (f B 622c6f6d6974656d707479 (ptr (lib MP))) (f C - (sl (lib LJ))) (f D 2c737472696e67 (ptr (lib TP))))",
+	"(ptr (st (f A - (lib LT)) (f B - (st (f C - (st (f D - (st (f E - (lib MV))))))))))",
 }
 
 var irEdgeVals = [][2]string{
